@@ -78,7 +78,7 @@ def items_for(tier, seed):
 def get(tier, seed):
     d = os.path.join(common.BUILD, "cache")
     os.makedirs(d, exist_ok=True)
-    f = os.path.join(d, "src-%s-%s-%d.json" % (common.repo_hash(), tier, seed))
+    f = os.path.join(d, "src-%s-%s-%s-%d.json" % (common.repo_hash(), common.harness_hash(), tier, seed))
     lock = open(os.path.join(d, "srclock"), "w")
     fcntl.flock(lock, fcntl.LOCK_EX)
     try:
